@@ -385,7 +385,7 @@ let gen_sources r ~tier oc =
 let names_of (l : (byte list * byte list) list) = List.map (fun (k, _) -> string_of_bytes k) l
 let shapes = [| "mis"; "msi"; "mss"; "ss"; "is"; "arr"; "fs"; "nest"; "st"; "pst"; "nilp"; "nili"; "tnil"; "ch"; "fn"; "big"; "minint"; "u64"; "nan";
                 "inf"; "ninf"; "f"; "i"; "z"; "neg"; "s"; "e"; "bad"; "t"; "n"; "any"; "m"; "bytes"; "mf"; "mia"; "mai"; "pp"; "tm"; "ntm"; "dur"; "emb";
-                "long"; "longany"; "lol"; "named"; "empty"; "emap"; "mix"; "pmix"; "nmss"; "nmsa"; "nmis"; "nmst"; "undefined_var" |]
+                "long"; "longany"; "lol"; "named"; "empty"; "emap"; "mix"; "pmix"; "nmss"; "nmsa"; "nmis"; "nmst"; "lnamed"; "larr"; "lstructs"; "lerrs"; "undefined_var" |]
 let lits = [| "0"; "1"; "-1"; "2"; "3.5"; "'a'"; "''"; "null"; "true"; "[]"; "[1, 2]"; "{'a': 1}"; "{}"; "9223372036854775807"; "-9223372036854775807";
               "1000000000"; "'z-a'"; "'%s %d'"; "'Y-m-d'"; "','"; "[[1]]"; "'a\\'b'" |]
 let arg r = if rint r 3 = 0 then pick r shapes else pick r lits
@@ -444,7 +444,7 @@ let gen_render r ~tier oc =
         "{{ $|slice(1, 9223372036854775807) }}"; "{{ $|slice(-1) }}"; "{{ $|slice(0) }}"; "{{ $|batch(0) }}"; "{{ $|batch(-1, 'x') }}"; "{{ $|split('') }}";
         "{{ $|format($) }}"; "{{ $|date($) }}"; "{{ $|number_format($) }}"; "{{ $|round($) }}"; "{{ $|json_encode }}"; "{{ $|merge($) }}"; "{{ $|merge([1]) }}"; "{{ $|merge(['x']) }}"; "{{ $|merge(ss) }}"; "{{ $|merge(is) }}"; "{{ $|merge({'a': 1}) }}"; "{{ $|merge(msi) }}"; "{{ $|merge(mis) }}"; "{{ $|sort|reverse|first }}";
         "{{ $|keys|join }}"; "{{ $|column('a')|join }}"; "{{ $|replace({'a': $}) }}"; "{{ $|default($)|length }}"; "{{ $|join($) }}"; "{{ $ is same as($) }}";
-        "{{ $ is divisible by($) }}"; "{{ $ is sameas([]) }}"; "{{ [] in $ }}"; "{{ {} in $ }}"; "{{ $ in long }}"; "{{ $ in longany }}"; "{{ $ not in lol }}";
+        "{{ $ is divisible by($) }}"; "{{ $ is sameas([]) }}"; "{{ [] in $ }}"; "{{ {} in $ }}"; "{{ 1 in $ }}"; "{{ 'x' not in $ }}"; "{{ s in $ }}"; "{{ 't59' in $ }}"; "{{ 59 in $ }}"; "{{ $ in long }}"; "{{ $ in longany }}"; "{{ $ not in lol }}";
         "{{ range($, 3) }}"; "{{ range(0, 3, $) }}"; "{{ random($) }}"; "{{ random($, $) }}"; "{{ cycle($, 1) }}"; "{{ cycle([1, 2], $) }}"; "{{ max($) }}"; "{{ min($, $) }}";
         "{{ attribute($, 'a') }}"; "{{ attribute(st, $) }}"; "{{ constant($) }}"; "{{ date($) is defined }}"; "{{ dump($) }}"; "{{ block($) }}"; "{{ source($) is defined }}" ]) shapes;
   (* sanity: reads of fields and zero-argument methods that exist on the standard context; the expected output
@@ -459,7 +459,11 @@ let gen_render r ~tier oc =
       "{% if pmix.Title %}y{% endif %}", "y"; "{{ mis[1] }}{{ msi.a }}{{ ss[0] }}{{ arr[2] }}", "a1a3";
       "{{ nmss.a }}{{ nmss['b'] }}{{ nmss.zz }}|{{ nmsa.a }}|{{ nmis[1] }}{{ nmis[9] }}|{{ nmst.T.a }}{{ nmst.N[0] }}", "xy|1|one|t7" ];
   List.iter (fun tpl -> emit_render oc "special" tpl)
-    [ "{% include 'inc' with {'a': 1 / 0} %}"; "{% include 'inc' with {'a': nosuchfn()} %}"; "{% for i in [1, 2] %}{% include 'inc' with {'a': i % 0} %}{% endfor %}";
+    [ "{% block a %}{% block b %}{% block a %}x{% endblock %}{% endblock %}{% endblock %}"; "{% block a %}{% block b %}{% block c %}{% block a %}x{% endblock %}{% endblock %}{% endblock %}{% endblock %}";
+      "{% block a %}{% if true %}{% block b %}{% for i in [1] %}{% block a %}y{% endblock %}{% endfor %}{% endblock %}{% endif %}{% endblock %}";
+      "{% extends 'base' %}{% block body %}{% block other %}{% block body %}x{% endblock %}{% endblock %}{% endblock %}";
+      "{% block a %}{% block b %}{% endblock %}{% endblock %}{% block b %}{% block a %}{% endblock %}{% endblock %}"; "{% block a %}{% block a %}x{% endblock %}{% endblock %}";
+      "{% include 'inc' with {'a': 1 / 0} %}"; "{% include 'inc' with {'a': nosuchfn()} %}"; "{% for i in [1, 2] %}{% include 'inc' with {'a': i % 0} %}{% endfor %}";
       "{% include 'inc' with {'a': undefined_var|nosuchfilter} only %}"; "{% include nosuchfn() with {'a': 1} %}"; "{% include 'nothere' with {'a': 1 / 0} ignore missing %}";
       "{% import 'macros' as mm %}{{ mm.m(1 / 0) }}"; "{% from 'macros' import m %}{{ m(nosuchfn()) }}"; "{% extends 'base' %}{% block body %}{{ 1 / 0 }}{% endblock %}";
       "{{ range(0, 9223372036854775807)|length }}"; "{{ range(1, 1000000000)|length }}"; "{{ range(9223372036854775807, 9223372036854775807)|length }}";
